@@ -2,6 +2,7 @@
     Proved by symbolic execution of the chain go2v extracts from attribute_query.go, for all queries, metadata, user
     records and key states. *)
 From Saml Require Import Base.Bytes Idp.FactTypes Gen.Facts Idp.Sso Idp.Callback Core.Attrs Idp.AttrQuery.
+From Saml Require Import Xml.SchemaTypes Xml.Schema Gen.Schema Xml.SamlSpec.
 
 Definition cur_atags : list atag := Eval vm_compute in map atag_of attrquery_steps.
 Lemma attrquery_fail_closed_facts : forallb (fun f => match sf f with FHttp c => (400 <=? c)%Z | _ => false end) attrquery_steps = true.
@@ -63,6 +64,11 @@ Qed.
 Theorem C12_fail_facts : forallb (fun f => match sf f with FHttp c => (400 <=? c)%Z | _ => false end) attrquery_steps = true.
 Proof. exact attrquery_fail_closed_facts. Qed.
 
+(** the struct tags of the current source agree with the SAML schemas where the handlers rely on them: Destination, ID, Issuer, Subject and Attribute of the AttributeQuery struct are the attribute / elements of that name in the query document *)
+Theorem C12_schema : forallb (conforms xml_schema) saml_spec = true.
+Proof. exact saml_spec_conforms. Qed.
+
 Print Assumptions C12_answered.
 Print Assumptions C12_filter.
 Print Assumptions C12_fail_facts.
+Print Assumptions C12_schema.
